@@ -44,6 +44,14 @@ def gen_history(rng: random.Random) -> dict:
     contents = {s: gen_content(rng) for s in used}
     sids = rng.sample(feeds.STATEMENTS, rng.randint(1, 4))
     ops = []
+    outage = [s for s in used if STORAGES[s] != 'inline']
+    if outage and rng.random() < 0.2:  # swarm: an outage of the storage in the middle of a process lifetime
+        storage, sid = rng.choice(outage), rng.choice(sids)
+        if rng.random() < 0.5:
+            ops.append({'op': 'read', 'storage': storage, 'sid': rng.choice(sids)})
+        ops += [{'op': 'mutate', 'storage': storage, 'how': 'drop', 'arg': 0}, {'op': 'read', 'storage': storage, 'sid': sid},
+                {'op': 'mutate', 'storage': storage, 'how': 'restore', 'arg': 0},
+                {'op': 'read', 'storage': storage, 'sid': sid}]
     for _ in range(rng.randint(3, 12)):
         kind = rng.choices(['read', 'mutate', 'restart', 'crash-read', 'read2'], [8, 3, 1.5, 0.7, 1.2])[0]
         sqls = [s for s in used if STORAGES[s].startswith('sql')]
